@@ -65,6 +65,38 @@ PROPS["C05"] = dict(PROPS["C04"], spec_key="c05",
     assumptions=["float rounding is not modelled: values are integers and small dyadics, on which float64 sums are exact; "
                  "means are compared with relative tolerance 2^-40"])
 
+PROPS["C16"] = {
+    "spec_key": "c16",
+    "runs": [{"engine": "agg", "mode": "", "n_quick": 4000, "n_thorough": 300000}],
+    "rule": "frames of 1-3 columns x 0-12 rows mixing int, int64, float32, float64 and numeric text in every order, one non-numeric "
+            "cell at first/middle/last position in 25% of columns, NaN/+-Inf at chosen positions in 30%; Series and frame-level "
+            "Sum/Mean/Min/Max, Describe, and Add of two further frames with independent lengths and optional fill; "
+            "non-trivial = at least one all-numeric column with >= 2 cells",
+    "assumptions": ["values are integers and small dyadics: float64 sums are exact; means compared with relative tolerance 2^-40",
+                    "IEEE rounding on general inputs is outside the model"],
+    "trusted_base": STD,
+}
+PROPS["C17"] = {
+    "spec_key": "c17", "race": True,
+    "runs": [{"engine": "apl", "mode": "", "n_quick": 1200, "n_thorough": 60000}],
+    "rule": "frames of 0-8 rows (8%: more rows than workers) x 0-3 columns; row-wise Apply under a forced completion order "
+            "(random priority per row enforced through the verif gate: the worker holding the smallest priority among those at the "
+            "gate is released next), column-wise Apply; 8 callbacks incl. slice and scalar results; built and run with -race; "
+            "non-trivial = row-wise, >= 2 rows, forced order different from index order",
+    "assumptions": ["absence of data races is a statement about the Go memory model: the race detector over forced schedules is supporting "
+                    "evidence, not proof", "callbacks are side-effect free members of the closed family"],
+    "trusted_base": STD + ["verif gate hook in /repo (dataframe/verif_gate_on.go)"],
+}
+PROPS["C18"] = {
+    "spec_key": "c18",
+    "runs": [{"engine": "rsm", "mode": "", "n_quick": 3000, "n_thorough": 200000}],
+    "rule": "timestamps 1900-2100 in UTC or one fixed-offset zone per frame, unsorted, with repeats, clustered around "
+            "year/month/day/hour/minute boundaries; 0-3 value columns; six frequency codes plus unknown ones; 4 aggregators exposing their "
+            "exact input; every case is called 8 (thorough 32) times and all results compared; non-trivial = >= 2 buckets and one bucket with >= 2 rows",
+    "assumptions": ["one zone per frame, fixed offset (time.Date is then the identity on civil fields)", "mixed-zone frames are outside the model"],
+    "trusted_base": STD + ["daysFromCivil (civil date -> Unix day) is validated by the correspondence run only"],
+}
+
 def _t(text, note, technique, ref):
     return {"text": text, "note": note, "technique": technique, "design_ref": ref}
 
